@@ -38,9 +38,13 @@ def case_rng(case, salt=0):
     return np.random.default_rng([int(x) for x in case["seed"]] + [salt])
 
 
+LAST = {"desc": None, "realised": None}
+
+
 def model_from_case(case):
     """Descriptor for a generated case (or the explicit descriptor of a replay)."""
     if "desc" in case:
+        LAST["desc"], LAST["realised"] = case["desc"], case.get("features", {})
         return case["desc"], case.get("features", {})
     rng = case_rng(case)
     cfg = gen.THOROUGH_CFG if case.get("cfg") == "thorough" else gen.DEFAULT_CFG
@@ -48,6 +52,7 @@ def model_from_case(case):
     feats = gen.draw_features(rng, case["index"])
     feats.update(case.get("force", {}))
     desc, realised = gen.gen_model(rng, cfg=cfg, feats=feats)
+    LAST["desc"], LAST["realised"] = desc, realised
     return desc, realised
 
 
